@@ -333,7 +333,13 @@ fn edit_table(rng: &mut Rng, table: &mut Vec<IfSpec>) -> &'static str {
                 if table.iter().any(|i| i.name == "eth2") || table.len() >= 4 {
                     continue;
                 }
-                table.push(IfSpec::new("eth2", 5, 3, &[("10.2.0.5", 24), ("fd00:3::5", 64)]));
+                // (no address twice in the table: one that has moved to another interface does not come with the new one)
+                let mut spec = IfSpec::new("eth2", 5, 3, &[("10.2.0.5", 24), ("fd00:3::5", 64)]);
+                spec.addrs.retain(|(a, _)| !table.iter().any(|i| i.addrs.iter().any(|(x, _)| x == a)));
+                if spec.addrs.is_empty() {
+                    continue;
+                }
+                table.push(spec);
                 return "interface-added";
             }
             _ => {
@@ -865,7 +871,19 @@ pub fn monitor_e(made: &MadeE, l: &mut Local) {
         let host = scen::wire_name(&reg.host);
         // (only where the service has been announced, over that family: whether a service with explicit addresses
         // is taken to interfaces that are switched on after its registration is not what this rule is about)
-        let announced_there = txs.iter().any(|tx| tx.out_if == Some(*ifi) && tx.v4 == *v4 && tx.t >= t_reg && tx.t + 1100 < *t && tx.msg.is_response() && tx.multicast && tx.msg.answers.iter().any(|r| r.rtype == wire::T_SRV && r.ttl > 0 && wire::names_eq_nocase(&r.name, &inst)));
+        // (an announcement: the PTR and the SRV record in one packet, and not in the interval after a table edit in
+        // which the daemon still sends from an address that has moved to another interface)
+        let announced_there = txs.iter().any(|tx| {
+            tx.out_if == Some(*ifi)
+                && tx.v4 == *v4
+                && tx.t >= t_reg
+                && tx.t + 1100 < *t
+                && tx.msg.is_response()
+                && tx.multicast
+                && tx.msg.answers.iter().any(|r| r.rtype == wire::T_SRV && r.ttl > 0 && wire::names_eq_nocase(&r.name, &inst))
+                && tx.msg.answers.iter().any(|r| r.rtype == wire::T_PTR && r.ttl > 0 && matches!(&r.rdata, RData::Ptr(n) if wire::names_eq_nocase(n, &inst)))
+                && !made.edits.iter().skip(1).any(|(te, _)| te + FLUX_MS > tx.t && *te <= tx.t)
+        });
         if !announced_there {
             continue;
         }
